@@ -13,14 +13,56 @@ instance (c : Ctl) (ns name : String) : Decidable (Unreferenced c ns name) := by
 instance (c : Ctl) (o : Option Pod) (v : Pod) : Decidable (NoRecompute c o v) := by
   unfold NoRecompute; exact inferInstance
 
-instance (c : Ctl) (v : Pod) : Decidable (PodGood c v) := by
+instance (c : Ctl) (P : Slice → Prop) [DecidablePred P] (v : Pod) : Decidable (PodGood c P v) := by
   unfold PodGood
-  cases findPod c.pods v.ns v.name <;> exact inferInstance
+  cases findPod c.pods v.ns v.name with
+  | none => simp only []; exact inferInstance
+  | some o =>
+    simp only []
+    have i1 : Decidable (NoRecompute c (some o) v) := inferInstance
+    have i2 : Decidable (podSig o = podSig v ∨ ∀ sl ∈ c.slices, ¬ P sl → ∀ ea ∈ sl.addrPairs, ea.1.target ≠ some (v.ns, v.name)) :=
+      inferInstance
+    have i3 : Decidable (o.ip = "" → v.ip ≠ "" → ∀ sl ∈ c.slices, ∀ ea ∈ sl.addrPairs,
+        ea.1.target = some (v.ns, v.name) → ea.2 = v.ip) := inferInstance
+    exact @instDecidableAnd _ _ i1 (@instDecidableAnd _ _ i2 i3)
 
-instance (st : StaleSet) (x : Slice) : Decidable (StaleP st x) := by unfold StaleP; exact inferInstance
-
-instance (c : Ctl) (st : StaleSet) (v : Pod) : Decidable (LabelFree c st v) := by
+instance (c : Ctl) (P : Slice → Prop) [DecidablePred P] (v : Pod) : Decidable (LabelFree c P v) := by
   unfold LabelFree; exact inferInstance
+
+instance (c : Ctl) (v : Ns) : Decidable (NsQuiet c v) := by
+  unfold NsQuiet
+  cases c.nss.find? (fun n => n.name = v.name) <;> simp only [] <;> exact inferInstance
+
+instance (c : Ctl) (P : Slice → Prop) [DecidablePred P] (nodes' : List Node) : Decidable (LocalityKept c P nodes') := by
+  unfold LocalityKept
+  have : ∀ (tns tn : String), Decidable (∀ p, findPod c.pods tns tn = some p → localityOf nodes' p = localityOf c.nodes p) := by
+    intro tns tn
+    cases findPod c.pods tns tn with
+    | none => exact isTrue (fun _ h => by cases h)
+    | some o => exact decidable_of_iff (localityOf nodes' o = localityOf c.nodes o) ⟨fun h p e => by cases e; exact h, fun h => h o rfl⟩
+  have : ∀ (ea : Ep × String), Decidable (∀ tns tn, ea.1.target = some (tns, tn) →
+      ∀ p, findPod c.pods tns tn = some p → localityOf nodes' p = localityOf c.nodes p) := by
+    intro ea
+    cases ea.1.target with
+    | none => exact isTrue (fun _ _ h => by cases h)
+    | some t =>
+      exact decidable_of_iff (∀ p, findPod c.pods t.1 t.2 = some p → localityOf nodes' p = localityOf c.nodes p)
+        ⟨fun h tns tn e => by cases e; exact h, fun h => h t.1 t.2 rfl⟩
+  exact inferInstance
+
+instance (c : Ctl) (name : String) : Decidable (∀ o, c.nss.find? (fun n => n.name = name) = some o → o.td = false) := by
+  cases c.nss.find? (fun n => n.name = name) with
+  | none => exact isTrue (fun _ h => by cases h)
+  | some o => exact decidable_of_iff (o.td = false) ⟨fun h o' e => by cases e; exact h, fun h => h o rfl⟩
+
+instance (c : Ctl) (v : Pod) : Decidable (NoIPLoss c v) := by
+  unfold NoIPLoss
+  cases findPod c.pods v.ns v.name with
+  | none => exact isTrue (Or.inr (fun _ h => by cases h))
+  | some o =>
+    exact decidable_of_iff (v.ip ≠ "" ∨ podOK o = false)
+      ⟨fun h => h.elim Or.inl (fun h => Or.inr (fun o' e => by cases e; exact h)),
+       fun h => h.elim Or.inl (fun h => Or.inr (h o rfl))⟩
 
 instance (pods : List Pod) : Decidable (PodKeysOK pods) := by unfold PodKeysOK; exact inferInstance
 
@@ -29,7 +71,7 @@ instance (c : Ctl) (v : Pod) : Decidable (PodIPStable c v) := by
   cases findPod c.pods v.ns v.name with
   | none => exact isTrue (fun _ h => by cases h)
   | some o =>
-    exact decidable_of_iff (o.ip = "" ∨ v.ip = "" ∨ v.ip = o.ip)
+    exact decidable_of_iff (o.ip = "" ∨ v.ip = "" ∨ v.ip = o.ip ∨ (v.phase ≠ "F" ∧ podOK v = true))
       ⟨fun h o' e => by cases e; exact h, fun h => h o rfl⟩
 
 instance (c : Ctl) : Decidable (NoPodAtUntargeted c) := by unfold NoPodAtUntargeted; exact inferInstance
@@ -65,14 +107,16 @@ instance (o : Option Ctl) (P : Ctl → Prop) [∀ c, Decidable (P c)] : Decidabl
   | none => isTrue (fun _ h => by cases h)
   | some c => decidable_of_iff (P c) ⟨fun h c' e => by cases e; exact h, fun h => h c rfl⟩
 
-instance (c : Ctl) (st : StaleSet) (op : Op) : Decidable (GoodStep c st op) := by
+instance (st : StaleSet) (wp : WaitSet) : DecidablePred (Exempt st wp) := fun x => inferInstance
+
+instance (c : Ctl) (st : StaleSet) (wp : WaitSet) (op : Op) : Decidable (GoodStep c st wp op) := by
   cases op <;> unfold GoodStep <;> exact inferInstance
 
-instance decAllGood : (c : Ctl) → (st : StaleSet) → (ops : List Op) → Decidable (AllGood c st ops)
-  | _, _, [] => isTrue trivial
-  | c, st, o :: r =>
-    have : Decidable (AllGood ((stepC c o).getD c) (if (stepC c o).isSome then staleStep c st o else st) r) :=
-      decAllGood _ _ r
+instance decAllGood : (c : Ctl) → (st : StaleSet) → (wp : WaitSet) → (ops : List Op) → Decidable (AllGood c st wp ops)
+  | _, _, _, [] => isTrue trivial
+  | c, st, wp, o :: r =>
+    have : Decidable (AllGood ((stepC c o).getD c) (if (stepC c o).isSome then staleStep c st o else st)
+        (if (stepC c o).isSome then waitStep c st wp o else wp) r) := decAllGood _ _ _ r
     by unfold AllGood; exact inferInstance
 
 instance (c : Ctl) : Decidable (NodesUnique c) := by unfold NodesUnique; exact inferInstance
